@@ -104,8 +104,11 @@ class Parser:
         try:
             if self._entrypoint_cell:
                 # translate a copy: resolving the identifiers binds a cell to the titles of one workbook,
-                # and the caller's cell must stay usable after the file path has been changed
-                CellTranslator.translate(replace(self._entrypoint_cell), excel, context)
+                # and the caller's cell must stay usable after the file path has been changed.  The copy carries the
+                # address only: a value the caller's cell happens to hold (it may come from Executor.get_cell) is not
+                # the content of the workbook cell, which has to be read from the workbook
+                CellTranslator.translate(replace(self._entrypoint_cell, value=None, _handled_identifiers=False), excel,
+                                         context)
             else:
                 CellTranslator.translate_file(excel, context)
         except RecursionError:
